@@ -1,5 +1,6 @@
 import Xsm.Proofs.Lifecycle
 import Xsm.Proofs.RuntimeEx
+import Xsm.Model.ActorsDone
 /-!
 # C14 — the interpreter lifecycle is a strict state machine; `stop()` releases everything
 
@@ -550,6 +551,58 @@ theorem stop_inside_macrostep_releases_not_everything :
     (XSM.RTEx.runStopSvc.st.status = "stopped" ∧ XSM.RTEx.runStopSvc.started = [(["b"], "i", 1)] ∧
      (XSM.RTEx.runStopSvc.flush.log.reverse.filter (fun r => r.1 = 150)).map (·.2) = ["svc-end:i:ok", "send:done.invoke.i:stopped"]) ∧
     (XSM.RTEx.runStopBetween.st.status = "stopped" ∧ XSM.RTEx.runStopBetween.timers.length = 0 ∧ XSM.RTEx.runStopBetween.invs.length = 0) := by
+  decide
+
+/-! ## descendants that FINISHED BY THEMSELVES — on the actor-system model (`Model/ActorsDone.lean`)
+
+`stop()` returns early only for `uninitialized` / `stopped`; a child that reached its final state (`done`) or failed
+(`error`) and is still listed in its parent's children map is torn down like a running one, with everything below it
+(`stopD`: the finished actors at and below the stopped one are first seen as `stop()` sees them, `reviveSub`). The
+subtree part of the clause for RUNNING descendants is `C15.parent_stop_stops_subtree` /
+`reachable_stop_stops_and_unregisters_subtree`. -/
+
+open XSM.Actors in
+/-- after `stop()` of `x`, no actor at or below `x` in the children maps still shows `done` or `error` -/
+theorem stop_leaves_no_finished_status_below (busy : Option Nat) (d : SysD) (x u : Nat) (hu : u ∈ subtreeOf d.base x) :
+    (stopD busy d x).status u ≠ .done ∧ (stopD busy d x).status u ≠ .error := by
+  have hfin : (stopD busy d x).fin.any (fun kv => decide (kv.1 = u)) = false := by
+    simp only [stopD, reviveSub, List.any_eq_false, List.mem_filter, decide_eq_true_eq]
+    rintro ⟨a, b⟩ ⟨_, hnot⟩ heq
+    simp only at heq
+    subst heq
+    simp [hu] at hnot
+  have hfail : (stopD busy d x).fin.any (fun kv => decide (kv.1 = u) && kv.2) = false := by
+    rw [List.any_eq_false] at hfin ⊢
+    intro kv hkv
+    have := hfin kv hkv
+    simp only [Bool.not_eq_true] at this
+    simp [this]
+  unfold SysD.status SysD.failed SysD.isFin
+  simp only [hfin, hfail]
+  constructor <;> (cases ((stopD busy d x).base.get u).status <;> simp)
+
+open XSM.Actors in
+/-- … and the finished-actor list keeps nothing of the stopped subtree: a later observation cannot report a finished
+    child there -/
+theorem stop_forgets_finished_below (busy : Option Nat) (d : SysD) (x u : Nat) (hu : u ∈ subtreeOf d.base x) (f : Bool) :
+    (u, f) ∉ (stopD busy d x).fin := by
+  simp only [stopD, reviveSub, List.mem_filter, not_and]
+  intro _
+  simp [hu]
+
+open XSM.Actors in
+/-- the scenario in full (sync engine): `r` spawns the BLOCKING child `a`; `a` spawns `g` (systemId `S2`) and then its
+    machine reaches its final state - `a` stays in `r`'s children map with status `done` while `g` keeps running;
+    `stop()` of `r` stops `a` and `g`, empties the registry and the children maps, and `g` receives nothing afterwards -/
+theorem finished_blocking_child_is_stopped_with_its_subtree :
+    let cmds : List (String × List Action) :=
+      [("C0", [Action.spawn "k1" (some "a") none true]), ("C1", [Action.spawn "k2" (some "g") (some "S2") false]),
+       ("C2", [Action.sendTo "S2" "M1" 0 none])]
+    let d3 := runD cmds (initD .sync true [] false) [.base (.cmd "r" "C0"), .base (.cmd "r:a" "C1"), .fin "r:a" false]
+    let d5 := runD cmds d3 [.base (.cmd "r" "C2"), .base (.stop "r")]
+    d3.status 1 = .done ∧ d3.status 2 = .running ∧ (d3.base.get 0).kids.map (·.2) = [1] ∧ d3.base.oos = false ∧
+    d5.status 0 = .stopped ∧ d5.status 1 = .stopped ∧ d5.status 2 = .stopped ∧ d5.base.registry = [] ∧ d5.fin = [] ∧
+    (d5.base.get 2).received = ["M1"] ∧ d5.base.oos = false := by
   decide
 
 end XSM.C14
